@@ -127,7 +127,45 @@ Theorem C13_sent_settings_are_applied_by_peer :
                             a_dg := b2n (c_dg c); a_wtmax := c_wtmax c |}.
 Proof. exact setup_roundtrip. Qed.
 
+(* the builders: every setter sets exactly its own option, in any order and any number of calls; options never
+   set keep the protocol defaults.  So every theorem above, stated for all [config] values, covers every
+   configuration either builder can produce *)
+Theorem C13_builder_setters_set_exactly_their_option :
+  forall r calls o, Forall (call_ok r) calls ->
+    cfg_opt (builder_config r calls) o = opt_value (map opt_call calls) o.
+Proof. exact builder_config_spec. Qed.
+
+(* HONEST LIMIT of the clause "for every configuration the builders accept, setup completes and the peer sees one
+   SETTINGS frame": if "accept" means "the setter takes the value" it is FALSE - the u64 setters take 2^62 and more,
+   which no SETTINGS frame can carry (varint range), and setup then answers H3_INTERNAL_ERROR (since the repair of F4;
+   a panic before).  With "accept" = "build() succeeds" the clause is C13_setup_never_panics above. *)
+Theorem C13_setup_completes_for_every_accepted_config_refuted :
+  exists r calls g, g < grease_bound /\ Forall (call_ok r) calls /\
+    setup_control g (builder_config r calls) = Err rfc_H3_INTERNAL_ERROR.
+Proof. exact setup_completes_refuted. Qed.
+
+(* a second SETTINGS frame, even in the same delivery as the first, is H3_FRAME_UNEXPECTED *)
+Theorem C13_second_settings_frame_is_refused :
+  forall lenenc1 payload1 lenenc2 payload2 rest known a s2,
+    wf_bytes lenenc1 -> wf_bytes payload1 -> wf_bytes lenenc2 -> wf_bytes payload2 -> wf_bytes rest ->
+    let frame2 := rfc_frame_type_SETTINGS :: lenenc2 ++ payload2 ++ rest in
+    rfc_varint (lenenc1 ++ payload1 ++ frame2) = Some (len payload1, payload1 ++ frame2) ->
+    rfc_varint (lenenc2 ++ payload2 ++ rest) = Some (len payload2, payload2 ++ rest) ->
+    rfc_receive payload1 = RxApply known a -> st_decode payload2 = Ok s2 ->
+    forall fuel, recv_control (S (S fuel)) (rfc_frame_type_SETTINGS :: lenenc1 ++ payload1 ++ frame2) init_peer
+                 = Err rfc_H3_FRAME_UNEXPECTED.
+Proof. exact recv_second_settings. Qed.
+
+(* the code returned to the application is the code the connection is closed with (what the peer sees) *)
+Theorem C13_peer_sees_the_error_code :
+  forall code, handle_connection_error code None = (code, Some code).
+Proof. exact (fun code => eq_refl). Qed.
+
 (* non-vacuity *)
+Example C13_builder_inhabited :
+  builder_config RServer [(S_ec, 1); (S_wt, 0); (S_mfs, 5); (S_mfs, 9); (S_grease, 0)] =
+    {| c_grease := false; c_mfs := 9; c_wt := false; c_ec := true; c_dg := false; c_wtmax := 0 |}.
+Proof. vm_compute. reflexivity. Qed.
 Example C13_setup_inhabited :
   setup_control 1337 (server_builder true 8192 true true true 16384) =
     Ok {| wb_hdr := [0; 4; 25; 128; 0; 162; 8; 0; 6; 96; 0; 8; 1; 171; 96; 55; 66; 1; 51; 1;
@@ -170,3 +208,7 @@ Print Assumptions C13_frame_decode_settings.
 Print Assumptions C13_first_settings_applied.
 Print Assumptions C13_defaults_until_settings.
 Print Assumptions C13_sent_settings_are_applied_by_peer.
+Print Assumptions C13_builder_setters_set_exactly_their_option.
+Print Assumptions C13_setup_completes_for_every_accepted_config_refuted.
+Print Assumptions C13_second_settings_frame_is_refused.
+Print Assumptions C13_peer_sees_the_error_code.
